@@ -2117,3 +2117,168 @@ Print Assumptions pump_c2j_value.
 Print Assumptions pump_roundtrip_cjc.
 Print Assumptions pump_roundtrip_jcj.
 Print Assumptions pump_roundtrip_jcj_same.
+
+(* ====================================================================== *)
+(* 10. Framing (C17): items written back to back are read one per call     *)
+(* ====================================================================== *)
+
+(* ---------- CBOR: every item is self-delimiting ---------------------------- *)
+
+Theorem dec_run_frame : forall c bs toks rest a ext,
+  dec_run c bs = DOk toks rest a ->
+  exists a', dec_run c (bs ++ ext) = DOk toks (rest ++ ext) a'.
+Proof.
+  intros c bs toks rest a ext H.
+  destruct (dec_sound _ _ _ _ _ H) as (n & Hp & ->). unfold parse_item in Hp.
+  apply (pitem_frame _ _ _ _ _ ext) in Hp. exact (dec_complete _ _ _ _ _ Hp).
+Qed.
+
+Corollary dec_run_frame_whole : forall c bs1 bs2 toks a,
+  dec_run c bs1 = DOk toks [] a -> exists a', dec_run c (bs1 ++ bs2) = DOk toks bs2 a'.
+Proof. intros c bs1 bs2 toks a H. exact (dec_run_frame c bs1 toks [] a bs2 H). Qed.
+
+(* [k] successive decoder calls, each on what the previous one left *)
+Fixpoint dec_many (k : nat) (c : bool) (bs : bytes) : option (list (list token) * bytes) :=
+  match k with
+  | O => Some ([], bs)
+  | S k' =>
+      match dec_run c bs with
+      | DOk toks rest _ =>
+          match dec_many k' c rest with
+          | Some (l, r) => Some (toks :: l, r)
+          | None => None
+          end
+      | _ => None
+      end
+  end.
+
+(* any documents, each of which decodes as exactly one item *)
+Theorem dec_many_concat : forall c (docs : list (bytes * list token)) tail,
+  Forall (fun d => exists a, dec_run c (fst d) = DOk (snd d) [] a) docs ->
+  dec_many (length docs) c (concat (map fst docs) ++ tail) = Some (map snd docs, tail).
+Proof.
+  intros c docs tail H. induction H as [|[d toks] ds [a Hd] _ IH]; [reflexivity|].
+  cbn [length map concat fst snd dec_many] in *. rewrite <- app_assoc.
+  destruct (dec_run_frame _ _ _ _ _ (concat (map fst ds) ++ tail) Hd) as [a' Ha'].
+  rewrite Ha'. cbn [app]. rewrite IH. reflexivity.
+Qed.
+
+(* the encoder's outputs (= rfc_enc, C02), back to back *)
+Corollary dec_many_encoded : forall c items tail,
+  Forall (fun n => enc_ok n /\ len_ok n /\ rt_ok n) items ->
+  Forall (fun n => exists chunks, enc_tokens (flatten n) = Finished chunks (length (flatten n)) /\
+                                  concat chunks = rfc_enc n) items /\
+  dec_many (length items) c (concat (map rfc_enc items) ++ tail) =
+    Some (map (fun n => map canon_tok (flatten n)) items, tail).
+Proof.
+  intros c items tail H. split.
+  - eapply Forall_impl; [|exact H]. intros n (He & _ & _). exact (cbor_encode_spec n He).
+  - pose proof (dec_many_concat c (map (fun n => (rfc_enc n, map canon_tok (flatten n))) items) tail) as D.
+    rewrite map_length, !map_map in D. cbn [fst snd] in D. apply D.
+    apply Forall_map. eapply Forall_impl; [|exact H]. intros n (He & Hl & Hr). cbn [fst snd].
+    destruct (parse_rfc_enc_canon n c [] He Hl Hr) as [fuel Hf]. rewrite app_nil_r in Hf.
+    rewrite <- flatten_canon. exact (dec_complete fuel c _ _ _ Hf).
+Qed.
+
+(* ---------- JSON: everything but a bare top-level number is self-delimiting -- *)
+
+Definition bare_number (ts : list token) : Prop :=
+  match ts with
+  | [t] => match tv t with Int _ | Uint _ | Flt _ => True | _ => False end
+  | _ => False
+  end.
+
+Lemma numsoft_bare n : numsoft n -> bare_number (flatten n).
+Proof. destruct n as [tg v]; destruct v; cbn; auto. Qed.
+
+Theorem jdec_run_frame : forall bs toks rest ext,
+  jdec_run bs = JDOk toks rest ->
+  (rest = [] -> bare_number toks -> terminator_ok ext) ->
+  jdec_run (bs ++ ext) = JDOk toks (rest ++ ext).
+Proof.
+  intros bs toks rest ext H Hc.
+  destruct (jdec_sound _ _ _ H) as (n & Hp & ->). unfold jparse_item in Hp.
+  apply (jdec_complete (4 * length bs + 4)). apply jpvalue_frame; [exact Hp|].
+  intros Hr Hn. apply Hc; [exact Hr|apply numsoft_bare; exact Hn].
+Qed.
+
+(* the side condition is needed: "1" followed by "2" is the number 12 *)
+Example jdec_run_frame_number_refuted :
+  jdec_run [49] = JDOk [Tok (Int 1) None] [] /\
+  jdec_run ([49] ++ [50]) = JDOk [Tok (Int 12) None] [].
+Proof. vm_compute. split; reflexivity. Qed.
+
+Lemma skip_ws_pre w bs : ws_bytes w -> skip_ws (w ++ bs) = skip_ws bs.
+Proof.
+  unfold ws_bytes. induction w as [|b w IH]; intros H; [reflexivity|].
+  cbn [forallb] in H. apply andb_prop in H. destruct H as [H1 H2].
+  cbn [app skip_ws]. rewrite H1. apply IH. exact H2.
+Qed.
+
+(* leading whitespace is skipped *)
+Theorem jdec_run_ws : forall w bs toks rest,
+  ws_bytes w -> jdec_run bs = JDOk toks rest -> jdec_run (w ++ bs) = JDOk toks rest.
+Proof.
+  intros w bs toks rest Hw H.
+  destruct (jdec_sound _ _ _ H) as (n & Hp & ->). unfold jparse_item in Hp.
+  apply (jdec_complete (4 * length bs + 4)).
+  destruct (4 * length bs + 4)%nat as [|f]; [discriminate|].
+  rewrite JsonDecProof.jpvalue_S in *. rewrite skip_ws_pre by exact Hw. exact Hp.
+Qed.
+
+Fixpoint jdec_many (k : nat) (bs : bytes) : option (list (list token) * bytes) :=
+  match k with
+  | O => Some ([], bs)
+  | S k' =>
+      match jdec_run bs with
+      | JDOk toks rest =>
+          match jdec_many k' rest with
+          | Some (l, r) => Some (toks :: l, r)
+          | None => None
+          end
+      | _ => None
+      end
+  end.
+
+(* a stream of documents (text, tokens, trailing whitespace the decoder leaves):
+   each text decodes to its tokens; a bare number that is not followed by
+   whitespace of its own needs a terminator in what follows *)
+Definition jdoc := (bytes * list token * bytes)%type.
+Definition jd_text (d : jdoc) : bytes := fst (fst d).
+Definition jd_toks (d : jdoc) : list token := snd (fst d).
+Definition jd_ws (d : jdoc) : bytes := snd d.
+
+Fixpoint jstream_ok (docs : list jdoc) (tail : bytes) : Prop :=
+  match docs with
+  | [] => True
+  | d :: r =>
+      jdec_run (jd_text d) = JDOk (jd_toks d) (jd_ws d) /\ ws_bytes (jd_ws d) /\
+      (jd_ws d = [] -> bare_number (jd_toks d) -> terminator_ok (concat (map jd_text r) ++ tail)) /\
+      jstream_ok r tail
+  end.
+
+(* what is left after the last document: its trailing whitespace, then [tail] *)
+Fixpoint jrem (w0 : bytes) (docs : list jdoc) (tail : bytes) : bytes :=
+  match docs with
+  | [] => w0 ++ tail
+  | d :: r => jrem (jd_ws d) r tail
+  end.
+
+Theorem jdec_many_concat : forall docs tail w0,
+  jstream_ok docs tail -> ws_bytes w0 ->
+  jdec_many (length docs) (w0 ++ concat (map jd_text docs) ++ tail) =
+    Some (map jd_toks docs, jrem w0 docs tail).
+Proof.
+  induction docs as [|d r IH]; intros tail w0 Hs Hw0; [reflexivity|].
+  destruct Hs as (Hd & Hw & Hc & Hr).
+  cbn [length map concat jdec_many jrem]. rewrite <- app_assoc.
+  pose proof (jdec_run_frame _ _ _ (concat (map jd_text r) ++ tail) Hd Hc) as Hf.
+  rewrite (jdec_run_ws w0 _ _ _ Hw0 Hf). rewrite (IH tail (jd_ws d) Hr Hw). reflexivity.
+Qed.
+
+Print Assumptions dec_run_frame.
+Print Assumptions dec_many_concat.
+Print Assumptions dec_many_encoded.
+Print Assumptions jdec_run_frame.
+Print Assumptions jdec_run_ws.
+Print Assumptions jdec_many_concat.
